@@ -56,6 +56,8 @@ MachineStep(e) ==
       [] e.op = "from_bytes_mod" -> FromBytesMod(e.d, e.be, e.bytes)
       [] e.op = "from_bigint" -> FromBigInt(e.d, e.v)
       [] e.op = "into_bigint" -> IntoBigInt(e.d)
+      [] e.op = "from_str" -> FromStr(e.d, e.neg, e.mag)
+      [] e.op = "to_str" -> ToStr(e.d)
       [] e.op = "norm" -> Norm(e.d)
       [] e.op = "conj" -> Conj(e.d)
       [] e.op = "mul_base" -> MulBase(e.d, e.j, e.s)
